@@ -14,7 +14,7 @@ THEOREMS = [T + n for n in (
     "table_matches_reference", "table_length", "lookup_number", "out_of_range_rejected",
     "lookup_symbol_any_case", "lookup_name_any_case", "lookup_number_string", "lookup_padded",
     "lookup_label", "lookup_label_padded", "lookup_sound", "vector_helpers_reject", "vector_helpers_total",
-    "order_irrefl", "order_trans", "order_total", "order_carbon_first", "order_by_number",
+    "order_irrefl", "order_trans", "order_total", "order_carbon_first", "order_by_number", "order_le_iff", "order_gt_iff", "order_ge_iff", "order_trichotomy",
     "formula_sorted_distinct", "formula_counts", "formula_total")]
 TRUSTED = [
     "translator harness/gen/elements.py (AST literal of _ELEMENT_DATA -> Gen/Elements.lean), validated by the exhaustive correspondence",
@@ -67,6 +67,9 @@ def impl(op, arg):
             return "ok " + " ".join(E.element_names(np.array(arg, dtype=int)))
         if op == "lt":
             return "ok " + ("1" if E.Element[arg[0]] < E.Element[arg[1]] else "0")
+        if op in ("le", "gt", "ge"):
+            import operator
+            return "ok " + ("1" if getattr(operator, op)(E.Element[arg[0]], E.Element[arg[1]]) else "0")
         if op == "formula":
             els = [E.Element[z] for z in arg]
             cnt = Counter(sorted(els))
@@ -151,11 +154,18 @@ def correspond(ctx):
         cases.append((line("formula", zs), impl("formula", zs), ["formula", zs]))
         a, b = rng.randint(1, 103), rng.choice([6, rng.randint(1, 103)])
         cases.append((line("lt", [a, b]), impl("lt", [a, b]), ["lt", [a, b]]))
+        for op in ("le", "gt", "ge"):
+            cases.append((line(op, [a, b]), impl(op, [a, b]), [op, [a, b]]))
         zs2 = [rng.randint(1, 103) for _ in range(rng.randint(0, 6))]
         if rng.random() < 0.3:
             zs2.insert(rng.randint(0, len(zs2)), rng.choice([0, -1, 104, 200, -102]))
         for op in ("covRadii", "vdwRadii", "symbols", "names"):
             cases.append((line(op, zs2), impl(op, zs2), [op, zs2]))
+    # the four ordering operators on every ordered pair of elements (complete)
+    for a in range(1, 104):
+        for b in range(1, 104):
+            for op in ("lt", "le", "gt", "ge"):
+                cases.append((line(op, [a, b]), impl(op, [a, b]), [op, [a, b]]))
     core.correspond_lines(ctx, "C17", cases)
 
 
